@@ -31,8 +31,14 @@ func evalC15(w *fw.W, s, _ string) {
 	if lib.IsXSS(s) {
 		ctx := ""
 		for _, c := range htmlCtx {
-			if lib.VerifXSSContext(s, c) {
-				ctx += htmlCtxName[c] + " "
+			c := c
+			// diagnostics only: the per-context accessor may itself panic where the public call did not
+			if pv, _ := fw.Safe(func() {
+				if lib.VerifXSSContext(s, c) {
+					ctx += htmlCtxName[c] + " "
+				}
+			}); pv != nil {
+				ctx += htmlCtxName[c] + "(accessor panicked) "
 			}
 		}
 		w.Fail("false-positive", "input without '<' and '=' reported as XSS in context(s): "+ctx)
